@@ -26,34 +26,34 @@ type Clause struct {
 }
 
 type FnContract struct {
-	Key        string // normalized function key
-	PkgPath    string // package of the file that declares the contract (resolves bare identifiers)
-	ParamNames []string
-	Tags       []string
-	Safety     []string // tags for automatic safety obligations
-	Requires   []*Clause
-	Ensures    []*Clause
-	Assumes    []*Clause // like ensures at call sites, but not proved for the body (listed as assumption)
-	Presumes   []*Clause // a stated assumption about the entry state: assumed like a requires in the body, assumed (not checked) at call sites, listed as assumption
-	Given      []*Clause // an assumption about the execution (e.g. no counter overflow): assumed at the function's own exit and at call sites, listed as assumption
-	Invariants []*Clause
-	Calls      []*Clause
-	Boundary   []*Clause
-	Modifies   []string // ghost vars and heap regions (trusted contracts)
-	Trusted    bool
-	Pure       bool
-	Bounded    string
-	Inline     bool
-	NoBody     bool     // contract only used at call sites, body never verified
-	Nullable   []string // pointer params that may be nil
-	Fresh      bool     // results are freshly allocated
-	MayPanic   bool
+	Key          string // normalized function key
+	PkgPath      string // package of the file that declares the contract (resolves bare identifiers)
+	ParamNames   []string
+	Tags         []string
+	Safety       []string // tags for automatic safety obligations
+	Requires     []*Clause
+	Ensures      []*Clause
+	Assumes      []*Clause // like ensures at call sites, but not proved for the body (listed as assumption)
+	Presumes     []*Clause // a stated assumption about the entry state: assumed like a requires in the body, assumed (not checked) at call sites, listed as assumption
+	Given        []*Clause // an assumption about the execution (e.g. no counter overflow): assumed at the function's own exit and at call sites, listed as assumption
+	Invariants   []*Clause
+	Calls        []*Clause
+	Boundary     []*Clause
+	Modifies     []string // ghost vars and heap regions (trusted contracts)
+	Trusted      bool
+	Pure         bool
+	Bounded      string
+	Inline       bool
+	NoBody       bool     // contract only used at call sites, body never verified
+	Nullable     []string // pointer params that may be nil
+	Fresh        bool     // results are freshly allocated
+	MayPanic     bool
 	RgEnsures    []*Clause // rely/guarantee tier: postconditions proved with every other request allowed to act between two store/Lightning calls
 	RgCalls      []*Clause // rely/guarantee tier: call-site clauses
 	RgInvariants []*Clause // rely/guarantee tier: loop invariants (the sequential ones are not used there)
-	Records    []string // ghost (error, counter) updated at every call site: `records api.err api.calls`
-	File       string
-	Line       int
+	Records      []string  // ghost (error, counter) updated at every call site: `records api.err api.calls`
+	File         string
+	Line         int
 }
 
 type Lemma struct {
